@@ -26,8 +26,18 @@ func C11(e *core.Env) int {
 		cr := rand.New(rand.NewSource(r.Int63()))
 		name := fmt.Sprintf("q%05d", i)
 		if i%2 == 0 {
-			cases = append(cases, pgen.DefaultCase(cr, name, pgen.DefaultOpts{Format: formats[(i/2)%3], Seed: e.Seed*223 + int64(i), NValues: nv}))
-			expectOK[name] = true
+			dc := pgen.DefaultCase(cr, name, pgen.DefaultOpts{Format: formats[(i/2)%3], Seed: e.Seed*223 + int64(i), NValues: nv})
+			expectOK[name] = dc.Features["mustfail"] == ""
+			if !expectOK[name] {
+				for _, cv := range dc.Convs {
+					cv.Spec = nil
+				}
+				dc.Feature("ptr", "1->0")
+				dc.Feature("pos", "top+default")
+				dc.Feature("level", "none")
+				dc.Feature("leaf", "struct")
+			}
+			cases = append(cases, dc)
 		} else {
 			c, ok := pgen.PointerCase(cr, name, pgen.DefaultOpts{Format: formats[(i/2)%3], Seed: e.Seed*223 + int64(i), NValues: nv})
 			expectOK[name] = ok
